@@ -14,9 +14,6 @@
 #include <xalanc/XPath/XObjectFactory.hpp>
 #include <xalanc/XSLT/XSLTInputSource.hpp>
 #include <xalanc/XSLT/XSLTResultTarget.hpp>
-#if defined(XALAN_VERIF_HAS_RESIDUE)
-#include <xalanc/XSLT/StylesheetExecutionContextDefault.hpp>
-#endif
 
 using namespace xv;
 
@@ -103,8 +100,9 @@ static const char* tf(bool b) { return b ? "true" : "false"; }
 static bool errEmpty(const XalanTransformer& t) { const char* e = t.getLastError(); return e == nullptr || *e == 0; }
 
 #if defined(XALAN_VERIF_HAS_RESIDUE)
+// optional hook H1 (hooks/H1-residue.patch): logical sizes of the execution context's stacks / caches / counters
 static std::string residueJson(const XalanTransformer& t) {
-    std::vector<unsigned long> v;
+    XalanVector<unsigned long> v;
     t.verifResidue(v);
     std::string o = ",\"residue\":[";
     for (size_t i = 0; i < v.size(); ++i) { if (i) o += ","; o += std::to_string(v[i]); }
@@ -150,7 +148,10 @@ static void runCase(const J& c) {
     std::map<long long, const XalanParsedSource*> hsrc; std::map<long long, std::string> hsrcDoc;
     long long nss = 0, nsrc = 0;
     std::set<std::string> emitted;
-    printf("{\"e\":\"Reset\",\"case\":%lld%s}\n", c.num("id"), residueJson(t).c_str());
+    printf("{\"e\":\"Reset\",\"case\":%lld}\n", c.num("id"));
+#if defined(XALAN_VERIF_HAS_RESIDUE)
+    printf("{\"e\":\"New\"%s}\n", residueJson(t).c_str());    // residue of the newly constructed transformer
+#endif
     for (auto& op : c.at("ops").a) {
         const std::string o = op.str("op");
         std::string args;
